@@ -936,7 +936,7 @@ func wideWords(r *hx.Rng, k int) [][]byte {
 	tails := [][]byte{{}, {byte(r.Intn(256))}, {byte(r.Intn(256)), byte(r.Intn(256))}}
 	nt := r.Range(1, 3)
 	var ws [][]byte
-	switch r.Intn(4) {
+	switch r.Intn(6) {
 	case 0: // the root itself
 		for _, l := range labels {
 			ws = append(ws, cat([]byte{l}, tails[r.Intn(nt)]))
@@ -947,29 +947,59 @@ func wideWords(r *hx.Rng, k int) [][]byte {
 			ws = append(ws, cat(stem, []byte{l}, tails[r.Intn(nt)]))
 		}
 		ws = append(ws, stem)
-	default: // two or three heads over the same wide node, one more over a near copy
+	default: // two heads over the same wide node, up to three more over near copies that differ
+		// in one target or one label: at the last link, just past a power of two, anywhere
+		sort.Slice(labels, func(a, b int) bool { return labels[a] < labels[b] })
+		used := map[byte]bool{}
+		for _, l := range labels {
+			used[l] = true
+		}
 		tl := make([][]byte, k)
 		for i := range tl {
 			tl[i] = tails[r.Intn(nt)]
 		}
-		heads := [][]byte{{'1'}, {'1', '0'}, {0x00}, {0xff, ','}}
-		nh := r.Range(2, 3)
-		for _, h := range heads[:nh] {
+		heads := [][]byte{{'1'}, {0x00}, {'2', '0'}, {0xff, ','}, {'3', 0xff}}
+		for _, h := range heads[:2] {
 			for i, l := range labels {
 				ws = append(ws, cat(h, []byte{l}, tl[i]))
 			}
 		}
-		odd := r.Intn(k)
-		for i, l := range labels {
-			t := tl[i]
-			if i == odd {
-				if r.Bool() {
-					t = cat(t, []byte{'9'}) // another target under the same label
-				} else if k < 256 {
-					l = byte(p[k]) // another label
-				}
+		p2 := 1
+		for p2*2 <= k-1 {
+			p2 *= 2
+		}
+		where := []int{k - 1, p2, r.Intn(k)}
+		otherLabel := []bool{r.Bool(), r.Bool(), r.Bool()}
+		for c := 0; c < 3; c++ {
+			if c > 0 && r.Bool() {
+				continue
 			}
-			ws = append(ws, cat(heads[3], []byte{l}, t))
+			odd := where[c]
+			for i, l := range labels {
+				t := tl[i]
+				if i == odd {
+					// a free label that keeps the position in the label order, if there is one
+					lo, hi := 0, 255
+					if i > 0 {
+						lo = int(labels[i-1]) + 1
+					}
+					if i+1 < k {
+						hi = int(labels[i+1]) - 1
+					}
+					var free []byte
+					for v := lo; v <= hi; v++ {
+						if !used[byte(v)] {
+							free = append(free, byte(v))
+						}
+					}
+					if otherLabel[c] && len(free) > 0 {
+						l = free[r.Intn(len(free))]
+					} else {
+						t = cat(t, []byte{'9'}) // another target under the same label
+					}
+				}
+				ws = append(ws, cat(heads[2+c], []byte{l}, t))
+			}
 		}
 	}
 	return sortDedup(ws)
@@ -1106,11 +1136,11 @@ func genRound3(g *hx.Gen, emit func(tcase)) {
 			}
 		}
 	}
-	// one label set, every combination of targets; half of them over digit letters
-	for i := g.Pick(300, 4000); i > 0; i-- {
+	// one label set, every combination of targets; two thirds of them over digits (decimal, hex) and separators
+	for i := g.Pick(400, 4000); i > 0; i-- {
 		alpha := byteAlphabet(r)
-		if r.Bool() {
-			alpha = [][]byte{[]byte("123"), []byte("0123456789"), []byte("12"), []byte("019"), []byte("1,2"), []byte("0:9|")}[r.Intn(6)]
+		if r.Chance(2, 3) {
+			alpha = [][]byte{[]byte("123"), []byte("0123456789"), []byte("12"), []byte("019"), []byte("1,2"), []byte("0:9|"), []byte("1a2b"), []byte("0123456789abcdef")}[r.Intn(8)]
 		}
 		K := []int{6, 8, 10, 12, 12, 12, 16, 24}[r.Intn(8)]
 		nl := 2
@@ -1131,7 +1161,7 @@ func genRound3(g *hx.Gen, emit func(tcase)) {
 		}
 	}
 	// wide nodes
-	for round := g.Pick(2, 16); round > 0; round-- {
+	for round := g.Pick(3, 24); round > 0; round-- {
 		for _, k := range widthSteps {
 			finish(wideWords(r, k), []byte{0x00, '0', ',', 0xff}, r.Chance(1, 4))
 		}
